@@ -448,3 +448,77 @@ func DecodeOpt(code uint16, p []byte, sp Space, uncovered map[uint16]bool, why *
 	}
 	return o, v
 }
+
+// LenOffsets walks b leniently (never fails) and returns the offsets of every
+// 2-byte length field it can find at any nesting level: option lengths of the
+// top-level list, of the lists nested in IA_NA/IA_TA/IA_PD/IA address/IA
+// prefix/vendor-opts/NTP/4RD options and in encapsulated relay messages, and
+// the item lengths of user-class, vendor-class and boot-file-parameter lists.
+func LenOffsets(b []byte) []int {
+	var out []int
+	var walkMsg func(base int, p []byte)
+	var walkOpts func(base int, p []byte, sp Space)
+	items := func(base int, p []byte) {
+		for i := 0; i+2 <= len(p); {
+			out = append(out, base+i)
+			i += 2 + (int(p[i])<<8 | int(p[i+1]))
+		}
+	}
+	walkOpts = func(base int, p []byte, sp Space) {
+		for i := 0; i+4 <= len(p); {
+			code := uint16(p[i])<<8 | uint16(p[i+1])
+			l := int(p[i+2])<<8 | int(p[i+3])
+			out = append(out, base+i+2)
+			end := i + 4 + l
+			if end > len(p) {
+				end = len(p)
+			}
+			body := p[i+4 : end]
+			bo := base + i + 4
+			if sp == Top {
+				skip := -1
+				switch Known[code] {
+				case "iana", "iapd":
+					skip = 12
+				case "iata":
+					skip = 4
+				case "iaaddr":
+					skip = 24
+				case "iaprefix":
+					skip = 25
+				case "4rd":
+					skip = 0
+				}
+				switch {
+				case skip >= 0 && len(body) >= skip:
+					walkOpts(bo+skip, body[skip:], Top)
+				case Known[code] == "vendoropts" && len(body) >= 4:
+					walkOpts(bo+4, body[4:], Vendor)
+				case Known[code] == "ntp":
+					walkOpts(bo, body, NTP)
+				case Known[code] == "relaymsg":
+					walkMsg(bo, body)
+				case Known[code] == "userclass" || Known[code] == "bootfileparam":
+					items(bo, body)
+				case Known[code] == "vendorclass" && len(body) >= 4:
+					items(bo+4, body[4:])
+				}
+			}
+			i += 4 + l
+		}
+	}
+	walkMsg = func(base int, p []byte) {
+		if len(p) == 0 {
+			return
+		}
+		h := 4
+		if p[0] == 12 || p[0] == 13 {
+			h = 34
+		}
+		if len(p) >= h {
+			walkOpts(base+h, p[h:], Top)
+		}
+	}
+	walkMsg(0, b)
+	return out
+}
